@@ -462,8 +462,10 @@ def optimizedIsCsc (nrows ncols : Nat) : Bool := decide (ncols < nrows)
 
 /-! ## dense reference operations -/
 
-def zeroRowsDense (M : List (List Rat)) (rows : List Nat) : List (List Rat) :=
-  (List.range M.length).zipWith (fun i r => if i ∈ rows then r.map (fun _ => 0) else r) M
+/-- `M[rows, :] = 0` (one row after the other; repeated rows are harmless) -/
+def zeroRowsDense (M : List (List Rat)) : List Nat → List (List Rat)
+  | [] => M
+  | l :: ls => zeroRowsDense (M.set l ((M.getD l []).map (fun _ => 0))) ls
 
 def sliceDense (M : List (List Rat)) (ncols : Nat) (ind : List Nat) : List (List Rat) :=
   ind.map (fun i => M.getD i (List.replicate ncols 0))
